@@ -26,16 +26,31 @@ import (
 )
 
 type f2l struct {
-	b     strings.Builder
-	funcs map[string]*ast.FuncDecl
-	res   map[string]string // function -> result kind
-	vars  map[string]string
-	err   []string
+	colors bool // every function takes the processed colours `c : Colors` (package style)
+	b      strings.Builder
+	funcs  map[string]*ast.FuncDecl
+	res    map[string]string // function -> result kind
+	vars   map[string]string
+	err    []string
 }
 
 /* functions outside the translated set: Lean term (pure) and result kind */
 var external = map[string][2]string{
-	"Scrub": {"Ansi.scrub", "string"},
+	"Scrub":       {"Ansi.scrub", "string"},
+	"ansi.Scrub":  {"Ansi.scrub", "string"},
+	"ansi.Apply":  {"Ansi.apply", "string"},
+	"ansi.Indent": {"Ansi.indent", "string"},
+	/* only ever called with len(links)-derived numbers */
+	"superscript": {"Style.superscriptInt", "string"},
+}
+
+func colorField(e ast.Expr) (string, bool) {
+	s := exprString(e)
+	const p = "config.Parsed.Style.Colors."
+	if strings.HasPrefix(s, p) {
+		return "c." + strings.ToLower(s[len(p):len(p)+1]) + s[len(p)+1:], true
+	}
+	return "", false
 }
 
 func (g *f2l) fail(format string, a ...any) string {
@@ -86,6 +101,10 @@ func (g *f2l) kind(e ast.Expr) string {
 		}
 	case *ast.ParenExpr:
 		return g.kind(x.X)
+	case *ast.SelectorExpr:
+		if _, ok := colorField(x); ok {
+			return "string"
+		}
 	case *ast.UnaryExpr:
 		if x.Op == token.NOT {
 			return "bool"
@@ -120,6 +139,9 @@ func (g *f2l) kind(e ast.Expr) string {
 		case *ast.ArrayType:
 			return kindOfType(fn)
 		case *ast.SelectorExpr:
+			if ext, ok := external[exprString(fn)]; ok {
+				return ext[1]
+			}
 			if id, ok := fn.X.(*ast.Ident); ok && id.Name == "strings" {
 				switch fn.Sel.Name {
 				case "Count", "LastIndex":
@@ -148,6 +170,10 @@ func (g *f2l) expr(e ast.Expr) string {
 		}
 	case *ast.Ident:
 		return leanIdent(x.Name)
+	case *ast.SelectorExpr:
+		if f, ok := colorField(x); ok {
+			return f
+		}
 	case *ast.ParenExpr:
 		return "(" + g.expr(x.X) + ")"
 	case *ast.UnaryExpr:
@@ -243,12 +269,18 @@ func (g *f2l) expr(e ast.Expr) string {
 				return "(Go.toUint " + args[0] + ")"
 			}
 			if _, ok := g.funcs[fn.Name]; ok {
+				if g.colors {
+					args = append([]string{"c"}, args...)
+				}
 				return "(← " + fn.Name + " " + strings.Join(args, " ") + ")"
 			}
 			if ext, ok := external[fn.Name]; ok {
 				return "(" + ext[0] + " " + strings.Join(args, " ") + ")"
 			}
 		case *ast.SelectorExpr:
+			if ext, ok := external[exprString(fn)]; ok {
+				return "(" + ext[0] + " " + strings.Join(args, " ") + ")"
+			}
 			if id, ok := fn.X.(*ast.Ident); ok && id.Name == "strings" {
 				/* separators must be one-character literals: the semantics library has the
 				   single-character versions only */
@@ -394,6 +426,9 @@ func (g *f2l) function(fd *ast.FuncDecl) {
 	g.vars = map[string]string{}
 	params := []string{}
 	rebinding := []string{}
+	if g.colors {
+		params = append(params, "(c : Colors)")
+	}
 	for _, p := range fd.Type.Params.List {
 		k := kindOfType(p.Type)
 		for _, n := range p.Names {
@@ -410,8 +445,8 @@ func (g *f2l) function(fd *ast.FuncDecl) {
 	g.line(0, "")
 }
 
-func translateFuncs(f *ast.File, names []string, ns string) (string, []string) {
-	g := &f2l{funcs: map[string]*ast.FuncDecl{}, res: map[string]string{}}
+func translateFuncs(f *ast.File, names []string, ns string, colors bool) (string, []string) {
+	g := &f2l{funcs: map[string]*ast.FuncDecl{}, res: map[string]string{}, colors: colors}
 	for _, d := range f.Decls {
 		if fd, ok := d.(*ast.FuncDecl); ok && fd.Recv == nil {
 			for _, n := range names {
